@@ -1807,6 +1807,11 @@ class ContentDir(Dir):
     type_name = "redun.ContentDir"
     classes = ContentFileClasses()
 
+    def _calc_hash(self, files: Optional[list[File]] = None) -> str:
+        # Hash members by content. Dir._calc_hash goes through filesystem.iter_file_hashes,
+        # which hashes plain File objects (size and mtime), not ContentFile.
+        return hash_struct([self.type_basename, self.path] + sorted(file.hash for file in self))
+
 
 class ContentStagingFile(StagingFile):
     type_basename = "ContentStagingFile"
